@@ -50,6 +50,9 @@ def _reject_table():
       ('unimodal dimension of size 2', lambda: L.Lattice(lattice_sizes=[2, 3], unimodalities=[1, 0])),
       ('edgeworth trust on non-monotone main', lambda: build(L.Lattice(lattice_sizes=[2, 2], monotonicities=[0, 1], edgeworth_trusts=(0, 1, 1)), [None, 2])),
       ('trapezoid trust on non-monotone main', lambda: build(L.Lattice(lattice_sizes=[2, 2], monotonicities=[0, 0], trapezoid_trusts=[(0, 1, 1)]), [None, 2])),
+      ('trust of a feature with itself (edgeworth)', lambda: build(L.Lattice(lattice_sizes=[3, 4], monotonicities=[1, 1], edgeworth_trusts=[(0, 0, 1)]), [None, 2])),
+      ('trust of a feature with itself (trapezoid, constraints class)', lambda: __import__('tensorflow_lattice.python.lattice_layer', fromlist=['x']).LatticeConstraints(lattice_sizes=[3, 3], monotonicities=[1, 1], trapezoid_trusts=[(1, 1, 'negative')])),
+      ('feature main in an edgeworth and conditional in a trapezoid trust', lambda: build(L.Lattice(lattice_sizes=[2, 2, 2], monotonicities=[1, 1, 1], edgeworth_trusts=[(0, 1, 1)], trapezoid_trusts=[(1, 2, 1)]), [None, 3])),
       ('feature both main and conditional', lambda: build(L.Lattice(lattice_sizes=[2, 2, 2], monotonicities=[1, 1, 1], edgeworth_trusts=[(0, 1, 1), (1, 2, 1)]), [None, 3])),
       ('trusts in opposite directions', lambda: build(L.Lattice(lattice_sizes=[2, 2], monotonicities=[1, 0], edgeworth_trusts=[(0, 1, 1)], trapezoid_trusts=[(0, 1, -1)]), [None, 2])),
       ('monotonic dominance between non-monotone features', lambda: build(L.Lattice(lattice_sizes=[2, 2], monotonicities=[1, 0], monotonic_dominances=[(0, 1)]), [None, 2])),
